@@ -24,6 +24,9 @@ EventErrs(s, e) ==
     [] e.a = "format" ->
          Fail("C20.roundtrip", C20roundtrip(s, PR(e.p), Out(e))) \cup
          Fail("C20.format", C20format(PR(e.p), Out(e)))
+    [] e.a = "parse_again" ->
+         Fail("C20.parse_stable", PR(e) = PR(e.first)) \cup
+         Fail("C20.parts.index", C20partsIndex(s, PR(e))) \cup Fail("C20.parts.head", C20partsHead(s, PR(e)))
     [] e.a = "format_sep" ->
          Fail("C20.roundtrip_separator", C20roundtrip(s, PR(e.p), Out(e))) \cup
          Fail("C20.format_separator", C20format(PR(e.p), Out(e)))
